@@ -229,8 +229,11 @@ class FakeNet:
     def gethostbyname(self, h):
         return h
 
+    SOCK_DGRAM = 2
+    IPPROTO_IP = 0
+
     def getaddrinfo(self, host, port, *a, **kw):
-        return [(self.AF_INET, self.SOCK_STREAM, 6, '', (host, port))]
+        return [(self.AF_INET, self.SOCK_STREAM, 6, '', (host if host else '0.0.0.0', port))]
 
     def getfqdn(self, h=''):
         return h or 'localhost'
